@@ -233,4 +233,11 @@ PROPS = {
         "assumptions": COMMON_ASSUMPTIONS,
         "level_text": "Every rewriting is decided through the specification: the period value is proved equal to the Bellman maximum over the set of grid combinations passing all filters and constraints, with variables bound by name and axes in the documented layout, for each skeleton AND its rewritten variants; equal specifications then give equal values.",
     },
+    "C20": {
+        "contracts": ["lcm.discrete_problem._segment_logsumexp", "lcm.discrete_problem._calculate_emax_extreme_value_shocks"],
+        "families": {"quick": "segment form: trailing rank 0..1, all sizes and segmentations with non-empty segments; axis form: ranks 1..2 x every choice-axis subset x segments on/off", "thorough": "trailing rank 0..2; ranks 1..3"},
+        "not_decided": ["finiteness in floating-point arithmetic for extreme value/scale", "the limit s -> 0 beyond the bound max <= result <= max + s log n", "shift equivariance (result + c for values + c) is not stated as a separate obligation; it follows from the identity", "the axis form is checked up to the trusted jax.scipy.special.logsumexp (how it is called: argument values/scale, exactly the dense choice axes, result multiplied by scale)"],
+        "assumptions": COMMON_ASSUMPTIONS + ["finite sums over symbolic extents are uninterpreted; used lemma schemas (premises discharged as obligations): a sum of non-negative terms bounds each term, a sum of terms <= 1 is at most the number of terms, sum_j c x_j = c sum_j x_j", "exp/log facts on occurring terms: exp > 0, exp(x) <= 1 for x <= 0, exp(x - m) = exp(x) exp(-m), log(exp t) = t, log(xy) = log x + log y, log monotone"],
+        "level_text": "Contracts on the two real functions: the stability structure (every exponent argument <= 0, one per segment = 0), the bounds and the log-sum-exp identity are VCs over uninterpreted finite sums with explicitly listed, assumed lemma schemas whose premises are discharged; the axis form is plumbing around the trusted library logsumexp.",
+    },
 }
